@@ -109,10 +109,12 @@ Print Assumptions C12_no_stale_after_reload_outside_finding.
    [weightedf] : some address family offered more than one candidate (Wrs.WeightedAnswer) in the answer or for
      a target of the additional section; [refusedf] : REFUSED or SERVFAIL (both return before lru.Add).
    [handle max cfg g c now r] : the whole handler = Cache.serve of this instance, preceded by "FindLocation
-     failed: no reply" (after the EDNS version test, before the cache); [htrace max cfg (g0, []) h] : for every
+     failed: no reply" (after the EDNS version test, before the cache); [htrace cfg (g0, []) h] : for every
      query of the history h (events of Model/Cache: queries, reloads, failed reloads) the generation in force,
-     the request, the response written and hit / miss / expired / off.
-   max (max answer) is the listener's (C20) and is fixed along a history.
+     the max answer it arrives with, the request, the response written and hit / miss / expired / off.
+   max (max answer) is the listener's (C20): in a history it is the third component of a query event
+     (EQuery now max r - Cache's per-query draws, which Serve.v does not have), so queries of listeners
+     configured differently may share the cache; [hist_max m h] : all queries of h arrive with max answer m.
 
    Weighted answers.  Serve.v has no random draw: a weighted selection is an item IPick (candidate list, number
    served) and C01 compares it as a candidate set (C11 owns the draw).  At this level a cached weighted answer
@@ -155,11 +157,13 @@ Theorem C12_location_roundtrip : forall g r, located g r = true ->
 Proof. exact located_loc. Qed.
 Print Assumptions C12_location_roundtrip.
 
-(* (5) on the domain of C12_cached_equals_uncached (every key well formed, i.e. every request located) the
-   run of [handle] IS the cached run Cache.crun of Model/Cache for this instance *)
+(* (5) on the domain of C12_cached_equals_uncached (every key well formed, i.e. every request located), all
+   queries arriving with one max answer, the run of [handle] IS the cached run Cache.crun of Model/Cache for
+   this instance *)
 Theorem C12_handler_is_cache_model : forall max cfg h g c,
+  hist_max max h ->
   Cache.hist_ok gen lower_bytes locate wf_key g h ->
-  map (fun x => (snd (fst x), snd x)) (htrace max cfg (g, c) h) =
+  map (fun x => (snd (fst x), snd x)) (htrace cfg (g, c) h) =
   flat_map (fun o => match o with Some x => [x] | None => [] end)
     (crun gen body wresponse lower_bytes locate (core max) (weightedf max) (refusedf max)
           finish badvers badvers_reply cfg (g, c) h).
@@ -183,22 +187,23 @@ Print Assumptions C12_cached_equals_uncached_handler.
 
 (* The same by the invariant of C12 ("every entry is serve_core of the current generation at its key"),
    which says WHICH generation, key and request: for every history (queries of located and unlocated
-   clients, any EDNS, reloads, failed reloads; any cache size, WRSTimeout, clock readings), every response
-   of the cache-enabled handler is
+   clients, any EDNS, any max answers, reloads, failed reloads; any cache size, WRSTimeout, clock readings),
+   every response of the cache-enabled handler is
    - nothing, when FindLocation fails (and the EDNS version is supported), or
    - the response Serve.serve gives, on the generation in force, to the same request with the name spelled
-     [a], equal to the name asked up to letter case, re-addressed to this request's question (a BADVERS
-     reply has none); on a miss, an expired entry or with the cache off, [a] is the name asked itself. *)
-Theorem C12_cached_is_case_variant_of_uncached : forall max cfg h g0,
+     [a], equal to the name asked up to letter case, arriving with a max answer [mx'], re-addressed to this
+     request's question (a BADVERS reply has none); on a miss, an expired entry or with the cache off, [a]
+     is the name asked itself and [mx'] this query's max answer. *)
+Theorem C12_cached_is_case_variant_of_uncached : forall cfg h g0,
   hist_wire h ->
-  Forall (fun x => let '(g, r, f, o) := x in
+  Forall (fun x => let '(g, mx, r, f, o) := x in
     (badvers r = false /\ located g r = false /\ f = (fun _ => ONoReply)) \/
     ((badvers r = true \/ located g r = true) /\
-     exists a, lower_bytes a = lower_bytes (q_asked r) /\ (o <> OHit -> a = q_asked r) /\
+     exists a mx', lower_bytes a = lower_bytes (q_asked r) /\ (o <> OHit -> a = q_asked r /\ mx' = mx) /\
        forall ecs, f ecs =
-         requestion (Serve.serve (g_backend g) (g_store g) (query_of (recase r a)) (g_loc g r) ecs max)
+         requestion (Serve.serve (g_backend g) (g_store g) (query_of (recase r a)) (g_loc g r) ecs mx')
                     (match req_edns r with Some (Npos _) => None | _ => question_of (query_of r) end)))
-    (htrace max cfg (g0, []) h).
+    (htrace cfg (g0, []) h).
 Proof. exact cached_is_case_variant. Qed.
 Print Assumptions C12_cached_is_case_variant_of_uncached.
 
@@ -207,6 +212,10 @@ Theorem C12_hist_wire_meaning : forall h, hist_wire h <->
   Forall (fun ev => match ev with EQuery _ _ _ r => q_qtype r < 65536 /\ q_qclass r < 65536 | _ => True end) h.
 Proof. intros. unfold hist_wire. tauto. Qed.
 Print Assumptions C12_hist_wire_meaning.
+Theorem C12_hist_max_meaning : forall m h, hist_max m h <->
+  Forall (fun ev => match ev with EQuery _ _ mx _ => mx = m | _ => True end) h.
+Proof. intros. unfold hist_max. tauto. Qed.
+Print Assumptions C12_hist_max_meaning.
 
 (* [gen_declares g L recs] : the database of generation g is a compiled form of the records recs and the
    guards of the matching C01 theorem hold for a client located in L - the hypotheses of
@@ -240,31 +249,36 @@ Theorem C12_gen_declares_meaning : forall g L recs, gen_declares g L recs <->
 Proof. exact gen_declares_meaning. Qed.
 Print Assumptions C12_gen_declares_meaning.
 
-(* [refines_mod_case L recs n q ecs max x] : the reply x echoes q's id and question and is otherwise what
+(* [refines_variant L recs n q ecs a mx x] : the reply x echoes q's id and question and is otherwise what
    C01_response_is_spec prescribes (C01_response_refines_meaning) for the same question with the name
-   spelled a, equal to q's up to letter case: the owner names of the answer section are spelled a *)
+   spelled a, equal to q's up to letter case, arriving with max answer mx: the owner names of the answer
+   section are spelled a.  [refines_mod_case L recs n q ecs max x] : for some such a, with max answer max *)
 Theorem C12_refines_mod_case_meaning : forall L recs n q ecs max x,
-  refines_mod_case L recs n q ecs max x <->
-  exists a, lower_bytes a = lower_bytes (q_name q) /\ rs_question x = question_of q /\
-    response_refines L recs n (mkQ (q_id q) a (q_type q) (q_class q) (q_edns q)) ecs max
-      (mkResp (rs_id x) (Some (a, q_type q, q_class q)) (rs_rcode x) (rs_aa x) (rs_an x) (rs_ns x) (rs_ex x) (rs_opt x)).
-Proof. intros. unfold refines_mod_case. tauto. Qed.
+  (refines_mod_case L recs n q ecs max x <-> exists a, refines_variant L recs n q ecs a max x) /\
+  forall a mx,
+  (refines_variant L recs n q ecs a mx x <->
+   lower_bytes a = lower_bytes (q_name q) /\ rs_question x = question_of q /\
+   response_refines L recs n (mkQ (q_id q) a (q_type q) (q_class q) (q_edns q)) ecs mx
+     (mkResp (rs_id x) (Some (a, q_type q, q_class q)) (rs_rcode x) (rs_aa x) (rs_an x) (rs_ns x) (rs_ex x) (rs_opt x))).
+Proof. intros. unfold refines_mod_case, refines_variant. split; [tauto|intros; tauto]. Qed.
 Print Assumptions C12_refines_mod_case_meaning.
 
 (* C12_cached_handler_is_spec.  For EVERY sequential history of queries (located or not, any EDNS), reloads
-   and failed reloads, every cache configuration and clock: whatever the cache-ENABLED handler writes for a
-   query with a supported EDNS version refines Spec/Answer.spec_response of the records DECLARED by the
-   generation it is served from (the one in force when the query is asked), for the client's location in
-   that generation - modulo the letter case of owner names; exactly (response_refines) unless the response
-   is a cache hit.  A reply implies the client was located.  Generations are arbitrary stores: the
-   statement is per query, under the premise that the generation in force is a compiled form of recs
-   ([gen_declares]) - so it covers a fixed compiled store as well as reloads between databases compiled
-   from well-formed files by any pipeline, and says nothing for a generation that is neither.
+   and failed reloads, every cache configuration and clock, all queries arriving with max answer [max]:
+   whatever the cache-ENABLED handler writes for a query with a supported EDNS version refines
+   Spec/Answer.spec_response of the records DECLARED by the generation it is served from (the one in force
+   when the query is asked), for the client's location in that generation - modulo the letter case of owner
+   names; exactly (response_refines) unless the response is a cache hit.  A reply implies the client was
+   located.  Generations are arbitrary stores: the statement is per query, under the premise that the
+   generation in force is a compiled form of recs ([gen_declares]) - so it covers a fixed compiled store as
+   well as reloads between databases compiled from well-formed files by any pipeline, and says nothing for
+   a generation that is neither.
    By the cache invariant of C12 (Proofs/Compose.history_written), C12_key_injective, the adapter lemmas
    above and C01_response_is_spec(_v2) / C01_file_level. *)
 Theorem C12_cached_handler_is_spec : forall max cfg h g0,
-  hist_wire h ->
-  Forall (fun x => let '(g, r, f, o) := x in
+  hist_wire h -> hist_max max h ->
+  Forall (fun x => let '(g, mx, r, f, o) := x in
+    mx = max /\
     forall recs ecs y n,
       let L := loc_of_num (locate g r) in
       gen_declares g L recs ->
@@ -274,16 +288,36 @@ Theorem C12_cached_handler_is_spec : forall max cfg h g0,
       located g r = true /\
       refines_mod_case L recs n (query_of r) ecs max y /\
       (o <> OHit -> response_refines L recs n (query_of r) ecs max y))
-    (htrace max cfg (g0, []) h).
+    (htrace cfg (g0, []) h).
 Proof. exact cached_handler_is_spec. Qed.
 Print Assumptions C12_cached_handler_is_spec.
 
+(* queries arriving with ANY max answers (listeners configured differently share the cache, and its key does
+   not hold the max answer): the same, except that a hit is only known to be what the statement prescribes
+   for SOME max answer mx' - that of the query the entry was computed for (C12_max_answer_shared_through_cache
+   shows that it need not be this query's) *)
+Theorem C12_cached_handler_is_spec_any_max : forall cfg h g0,
+  hist_wire h ->
+  Forall (fun x => let '(g, mx, r, f, o) := x in
+    forall recs ecs y n,
+      let L := loc_of_num (locate g r) in
+      gen_declares g L recs ->
+      (req_edns r = None \/ req_edns r = Some 0) ->
+      wf_name n -> nlen (pack n) <= 255 -> lower_bytes (q_asked r) = pack n ->
+      f ecs = OReply y ->
+      located g r = true /\
+      (exists a mx', refines_variant L recs n (query_of r) ecs a mx' y) /\
+      (o <> OHit -> response_refines L recs n (query_of r) ecs mx y))
+    (htrace cfg (g0, []) h).
+Proof. exact cached_handler_is_spec_any_max. Qed.
+Print Assumptions C12_cached_handler_is_spec_any_max.
+
 (* the same over ONE compiled store: a history without reload is served from g0 throughout *)
 Theorem C12_cached_handler_is_spec_fixed_store : forall max cfg h g0 recs,
-  hist_wire h ->
+  hist_wire h -> hist_max max h ->
   Forall (fun ev => match ev with EReload _ _ => False | _ => True end) h ->
-  Forall (fun x => let '(g, r, f, o) := x in
-    g = g0 /\
+  Forall (fun x => let '(g, mx, r, f, o) := x in
+    g = g0 /\ mx = max /\
     forall ecs y n,
       let L := loc_of_num (locate g0 r) in
       gen_declares g0 L recs ->
@@ -293,7 +327,7 @@ Theorem C12_cached_handler_is_spec_fixed_store : forall max cfg h g0 recs,
       located g0 r = true /\
       refines_mod_case L recs n (query_of r) ecs max y /\
       (o <> OHit -> response_refines L recs n (query_of r) ecs max y))
-    (htrace max cfg (g0, []) h).
+    (htrace cfg (g0, []) h).
 Proof. exact cached_handler_is_spec_fixed. Qed.
 Print Assumptions C12_cached_handler_is_spec_fixed_store.
 
@@ -305,8 +339,8 @@ Print Assumptions C12_cached_handler_is_spec_fixed_store.
    TXT FOO (miss on generation 2), A www (NODATA + SOA: generation 2 locates the client elsewhere), hit,
    expiry.  Entries: (cache outcome, (id, rcode, owners of the answer, size of authority, OPT)). *)
 Example C12_cached_handler_example :
-  hist_wire y_hist /\ gen_declares y_g1 x_L x_recs /\ gen_declares y_g2 [0; 0] x_recs /\
-  map (fun x => (snd x, digest (snd (fst x) (Some [7; 7])))) (htrace 1 y_cfg (y_g1, []) y_hist) =
+  hist_wire y_hist /\ hist_max 1 y_hist /\ gen_declares y_g1 x_L x_recs /\ gen_declares y_g2 [0; 0] x_recs /\
+  map (fun x => (snd x, digest (snd (fst x) (Some [7; 7])))) (htrace y_cfg (y_g1, []) y_hist) =
   [(OMiss, Some (1, 0, [y_Foo], 0, None));
    (OHit, Some (2, 0, [y_Foo], 0, Some (Some [7; 7])));
    (OMiss, Some (3, 0, [y_www], 0, None));
@@ -316,7 +350,7 @@ Example C12_cached_handler_example :
    (OMiss, Some (7, 0, [], 1, None));
    (OHit, Some (8, 0, [], 1, None));
    (OExpired, Some (9, 0, [], 1, None))] /\
-  (exists x, snd (fst (nth 1 (htrace 1 y_cfg (y_g1, []) y_hist) (y_g1, mkReq 0 [] 0 0 0, fun _ => ONoReply, OOff))) None = OReply x /\
+  (exists x, snd (fst (nth 1 (htrace y_cfg (y_g1, []) y_hist) (y_g1, 0, mkReq 0 [] 0 0 0, fun _ => ONoReply, OOff))) None = OReply x /\
              rs_question x = Some (y_foo, 16, 1) /\
              rs_an x = [IRR (LookupV1.mkRR y_Foo 16 1 120 [5; 104; 101; 108; 108; 111])]) /\
   spec_response x_L x_recs x_n1 16 =
@@ -336,7 +370,7 @@ Print Assumptions C12_cached_handler_example.
    handler.go + db/utils.go (HasRecord), not a refutation of C12_cached_equals_uncached: it shows that the
    theorem's hypothesis (a) fails for the owner-case relation when the real handler is plugged in. *)
 Example C12_case_variant_not_owner_case :
-  map (fun x => (snd x, extras (snd (fst x) None))) (htrace 1 y_cfg (z_g, []) z_hist) =
+  map (fun x => (snd x, extras (snd (fst x) None))) (htrace y_cfg (z_g, []) z_hist) =
     [(OMiss, [IPick z_mz 1 1 [(30, 1, [192; 0; 2; 7])] 1]);
      (OHit, [IPick z_mz 1 1 [(30, 1, [192; 0; 2; 7])] 1])] /\
   extras (plain_serve 1 z_g (mkReq 1 z_mz 255 1 (extra_of 2 None)) None) = [] /\
@@ -345,13 +379,26 @@ Example C12_case_variant_not_owner_case :
 Proof. exact case_variant_not_owner_case. Qed.
 Print Assumptions C12_case_variant_not_owner_case.
 
+(* the cache key does not hold the max answer: z. SOA + NS, w.z. with two A records, WRSTimeout 60 (so the
+   weighted answer is cached).  A w.z. arrives with max answer 2 (two addresses served), then with max
+   answer 1: the hit serves two addresses, the uncached handler one.  Model level (Serve.v + Cache.v);
+   a property of handler.go's cache key, visible only with WRSTimeout > 0 and listeners whose max answers
+   differ. *)
+Example C12_max_answer_shared_through_cache :
+  map (fun x => (snd (fst (fst (fst x))), snd x, served (snd (fst x) None))) (htrace w_cfg (w_g, []) w_hist) =
+    [(2, OMiss, 2); (1, OHit, 2)] /\
+  served (plain_serve 1 w_g (mkReq 1 w_wz 1 1 (extra_of 2 None)) None) = 1 /\
+  weightedf 1 w_g (mkKey 0 1 1 w_wz) = true.
+Proof. exact max_answer_shared_through_cache. Qed.
+Print Assumptions C12_max_answer_shared_through_cache.
+
 (* What remains outside (stated, not hidden).
-   * max answer is fixed along a history: listeners with different max answers sharing one cache are not
-     covered (an entry computed under one max answer served under another; immaterial for answers with at
-     most one candidate per family when max >= 1, but that is not proved here).
    * [weightedf] / [refusedf] of this instance are evaluated on the lower-cased name; that the real flags
      (computed for the name as asked) agree is not proved (it does not enter any statement above: they only
      decide what is inserted).
+   * that an answer with at most one candidate per family does not depend on the max answer (>= 1) is not
+     proved; it would turn the mx' of C12_cached_handler_is_spec_any_max into the query's own for
+     non-weighted answers.
    * FindLocation ([g_loc], C03 / C10), the ECS option it returns (an argument of every response) and the
      draw among candidates (C11) stay parameters; concurrency (finding F6 above) is outside the sequential
      semantics; inherited from C01: DS at or below a delegation, order inside sections, completeness of the
